@@ -104,10 +104,10 @@ func (rg *rig) makeObject(rng *rand.Rand, cs caseSpec, tag string) *object {
 	if cs.e.oversize {
 		arSize = int(rg.maxProxy) + 40 + rng.IntN(3000)
 	}
-	return rg.fresh(func() *object {
+	return rg.fresh(func(bump int) *object {
 		switch cs.kind {
 		case cache.CAS:
-			return newCAS(rng, rg.storage, size, tag, cs.e.needMulti)
+			return newCAS(rng, rg.storage, size+bump, tag, cs.e.needMulti)
 		case cache.AC:
 			return newAR(rng, cache.AC, arSize, tag)
 		default:
@@ -115,16 +115,16 @@ func (rg *rig) makeObject(rng *rand.Rand, cs caseSpec, tag string) *object {
 				// the gRPC proxy moves RAW entries as ActionResults
 				return newAR(rng, cache.RAW, arSize, tag)
 			}
-			return newRaw(rng, size, tag)
+			return newRaw(rng, size+bump, tag)
 		}
 	})
 }
 
 // fresh draws objects until one has a key this rig has not used before (tiny
-// blobs have few possible values).
-func (rg *rig) fresh(gen func() *object) *object {
-	for {
-		o := gen()
+// blobs have few possible values; when those run out the size grows).
+func (rg *rig) fresh(gen func(bump int) *object) *object {
+	for try := 0; ; try++ {
+		o := gen(try / 8)
 		rg.mu.Lock()
 		used := rg.used[o.hash]
 		if !used {
